@@ -16,6 +16,17 @@ import (
 func (fv *FuncVC) call(fr *Frame, b *ssa.BasicBlock, st *State, reach string, x *ssa.Call) Val {
 	cc := x.Common()
 	pos := fv.pos(x.Pos())
+	if fr.top && fv.nopanic && fv.con != nil && fv.con.NoPanicUntil != "" {
+		name := ""
+		if cc.IsInvoke() {
+			name = cc.Method.Name()
+		} else if sc := cc.StaticCallee(); sc != nil {
+			name = sc.Name()
+		}
+		if name == fv.con.NoPanicUntil {
+			fv.nopanic = false
+		}
+	}
 	// builtins
 	if bi, ok := cc.Value.(*ssa.Builtin); ok {
 		return fv.builtin(fr, st, reach, x, bi)
@@ -228,6 +239,18 @@ func (fv *FuncVC) callStatic(fr *Frame, st *State, reach string, callee *ssa.Fun
 	con := fv.v.contracts[callee]
 	if con == nil && callee.Origin() != nil {
 		con = fv.v.contracts[callee.Origin()]
+	}
+	if fv.con != nil && fr.depth <= 1 {
+		for _, h := range fv.con.HavocCalls {
+			if h == callee.Name() {
+				key := funcKey(callee)
+				fv.havoced[key+" (abstracted by `havocs` in the contract)"] = true
+				keys, all := fv.v.Effects(fv, callee)
+				fv.havocKeys(st, keys, all)
+				fv.havocAddrArgs(st, args)
+				return fv.freshResult(st, reach, rt, "ret."+callee.Name())
+			}
+		}
 	}
 	if con != nil && !con.Inline {
 		return fv.applyContract(fr, st, reach, callee, con, args, free, rt, pos)
